@@ -163,6 +163,19 @@ theorem accept_only_valid (env : Env L) (s s' : Node L) (b : Block)
 example : Inv exEnv exNode ∧ (addBlock exEnv exNode b1).2 = none :=
   ⟨inv_genesis exEnv exCfg g0 (3, 0) [] rfl, by decide⟩
 
+/-- the mempool-soundness hypothesis `hpool` of `accept_only_valid` is needed: a transaction that is
+pooled (same hash, same witness) is not verified again, so if it lost its validity while pooled and the
+mempool kept it, the block carrying it is accepted (known findings stale-pooled-tx-accepted:*: the
+real mempool keeps transactions of a freshly blocked sender and transactions that underpay after an
+attribute-fee or a small FeePerByte raise). -/
+def tStale : Tx := { id := 60, wit := 61, sender := 1, fee := 5, netFee := 2, conflicts := [] }
+def exStalePool : Node (Nat × Nat) := { exNode with pool := [tStale] }
+def bStale : Block := { hdr := { h1 with hash := 13, merkleRoot := 60, wit := 20 }, txs := [tStale] }
+
+theorem stale_pooled_tx_accepted :
+    (addBlock exEnv exStalePool bStale).2 = none ∧ exStalePool.cfg.verifyTx = true ∧
+      exEnv.txValid exStalePool.ledger exStalePool.blockHeight tStale = false := by decide
+
 /-! The four defects this check found in the code as it was (now fixed: d99d969, ec0103c, d0c3ec8,
 ab64b57) as concrete replays on the model: each block was accepted by the old decision logic and is
 rejected now. -/
